@@ -206,6 +206,7 @@ class State:
         s.obj_epoch = dict(self.obj_epoch)
         s.draws = dict(self.draws)
         s.notes = list(self.notes)
+        s.tid = getattr(self, 'tid', 0)
         return s
 
     def alloc(self, v):
@@ -326,6 +327,8 @@ class Exec:
 
     # ---- heap access
     def load(self, st, p, pos=None):
+        if isinstance(p, Opaque):
+            return p
         if not isinstance(p, Ptr):
             raise PathEnd('panic', 'nil pointer dereference at %s' % pos)
         v = st.heap[p.obj]
@@ -432,6 +435,39 @@ class Exec:
             except PathEnd as e:
                 self.results.append(Result(e.status, s, e.info, getattr(e, 'ret', None)))
         return self.results
+
+    def run_threads(self, result):
+        """after the main thread of a path has finished: run every goroutine it (transitively) spawned to completion, sequentially,
+        on the same heap (they communicate only through channel/server events, which are recorded, not executed). Returns the final state
+        or raises Unsupported if a goroutine forks or fails."""
+        st = result.state
+        done = 0
+        while True:
+            ths = st.heap.get(('threads',), ())
+            if done >= len(ths):
+                break
+            tid, target, args, pos = ths[done]
+            done += 1
+            st.tid = tid
+            st.frames = []
+            dummy = Frame({'name': 'goroutine#%d' % tid, 'blocks': [{'index': 0, 'instrs': [{'op': 'Return', 'results': []}], 'preds': [], 'succs': []}], 'params': [], 'freevars': []})
+            st.frames.append(dummy)
+            try:
+                out = self.invoke_value(st, dummy, target, list(args), ret_to=('defer', None), pos=pos)
+                if out is not None:
+                    raise Unsupported('goroutine %d forks at its first call' % tid)
+                while True:
+                    forks = self.step_until_fork(st)
+                    if forks is not None:
+                        if len(forks) != 1:
+                            raise Unsupported('goroutine %d has data-dependent control flow (%d successors) at %s' % (tid, len(forks), getattr(self, 'cur_pos', '?')))
+                        st = forks[0]
+                        st.tid = tid
+            except PathEnd as e:
+                if e.status != 'ok':
+                    st.events.append(('cev', tid, 'abort', e.status, str(e.info), None))
+            st.tid = 0
+        return st
 
     def step_until_fork(self, st):
         """execute instructions of state st until it ends (PathEnd) or forks (returns list of successor states)"""
@@ -905,6 +941,9 @@ class Exec:
 
     def op_FieldAddr(self, st, fr, ins):
         x = self.ev(st, fr, ins['x'])
+        if isinstance(x, Opaque):      # field of a library object: stays opaque
+            self.setreg(fr, ins, Opaque('ext', callee='field#%d' % ins['field'], args=(x,), oid=id(x)))
+            return
         if not isinstance(x, Ptr):
             raise PathEnd('panic', 'nil pointer dereference (field) at %s' % ins.get('pos'))
         self.setreg(fr, ins, Ptr(x.obj, x.path + (ins['field'],)))
@@ -1020,6 +1059,11 @@ class Exec:
 
     def call_stub(self, st, fr, name, args, ret_to, pos, ins, handler=None):
         h = handler or self.stubs.get(name)
+        if h is None:
+            for pre, hh in self.stubs.get('prefix', []):
+                if name.startswith(pre):
+                    h = hh
+                    break
         if h is None:
             raise Unsupported('no stub for %s at %s' % (name, pos))
         out = h(self, st, args, {'name': name, 'pos': pos, 'ins': ins})
